@@ -197,8 +197,8 @@ def roaringEnc (vs : List Nat) : Bytes :=
   let header := u32le 12346 ++ u32le cs.length
   let descr := cs.flatMap (fun (k, xs) => u16le k ++ u16le (xs.length - 1))
   let datas := cs.map (fun (_, xs) => containerData xs)
-  let offsets := (datas.foldl (fun (acc : Nat × Bytes) d => (acc.1 + d.length, acc.2 ++ u32le acc.1))
-    (8 + 8 * cs.length, [])).2
+  let offsets := (datas.foldl (fun (acc : Nat × List Bytes) d => (acc.1 + d.length, u32le acc.1 :: acc.2))
+    (8 + 8 * cs.length, [])).2.reverse.flatten
   header ++ descr ++ offsets ++ datas.flatten
 
 def readU16le : Bytes → Nat
@@ -208,21 +208,34 @@ def readU16le : Bytes → Nat
 def bitsOf (byte base : Nat) : List Nat :=
   (List.range 8).filterMap (fun i => if byte / 2 ^ i % 2 = 1 then some (base + i) else none)
 
+/-- `n` little-endian u16 values from the front of a byte string, and the rest -/
+def takeU16s : Nat → Bytes → List Nat × Bytes
+  | 0, bs => ([], bs)
+  | n + 1, b0 :: b1 :: rest =>
+    let r := takeU16s n rest
+    ((b0 + 256 * b1) :: r.1, r.2)
+  | _, bs => ([], bs)
+
+/-- members of a bitmap container given its bytes, ascending -/
+def bitmapVals : Bytes → Nat → List Nat
+  | [], _ => []
+  | b :: rest, base => bitsOf b base ++ bitmapVals rest (base + 8)
+
 /-- decoder for the same format (cookie 12346 only; anything else decodes to the empty list) -/
 def roaringDec (bs : Bytes) : List Nat :=
   if readU32le bs ≠ 12346 then [] else
   let n := readU32le (bs.drop 4)
-  let descr := (List.range n).map (fun i => (readU16le (bs.drop (8 + 4 * i)), readU16le (bs.drop (8 + 4 * i + 2)) + 1))
+  let descr := (takeU16s (2 * n) (bs.drop 8)).1
+  let rec pairs : List Nat → List (Nat × Nat)
+    | k :: c :: t => (k, c + 1) :: pairs t
+    | _ => []
   let data := bs.drop (8 + 8 * n)
-  (descr.foldl (fun (acc : List Nat × Bytes) (kc : Nat × Nat) =>
-    let (k, card) := kc
-    if card > 4096 then
-      let chunk := acc.2.take 8192
-      let vals := (List.range 8192).flatMap (fun i => bitsOf (chunk.getD i 0) (8 * i))
-      (acc.1 ++ vals.map (· + 65536 * k), acc.2.drop 8192)
+  ((pairs descr).foldl (fun (acc : List (List Nat) × Bytes) (kc : Nat × Nat) =>
+    if kc.2 > 4096 then
+      ((bitmapVals (acc.2.take 8192) 0).map (· + 65536 * kc.1) :: acc.1, acc.2.drop 8192)
     else
-      let vals := (List.range card).map (fun i => readU16le (acc.2.drop (2 * i)))
-      (acc.1 ++ vals.map (· + 65536 * k), acc.2.drop (2 * card))) ([], data)).1
+      let r := takeU16s kc.2 acc.2
+      (r.1.map (· + 65536 * kc.1) :: acc.1, r.2)) ([], data)).1.reverse.flatten
 
 def roaringCodec : ManyCodec := { enc := roaringEnc, dec := roaringDec }
 
